@@ -450,6 +450,12 @@ fn main() {
         let mut findings: Vec<Finding> = Vec::new();
         let mut observations: Vec<String> = Vec::new();
         let rec0 = case.recs[0];
+        // random-walk families may produce only ONE split-timing reading of a ledger that trades on a split
+        // day; the other reading is equally admissible but unknown here, so such a case cannot be judged
+        if rec0.trade_on_split_day() && !(case.recs.iter().any(|r| r.timing == "end") && case.recs.iter().any(|r| r.timing == "start")) && case.recs.iter().any(|r| r.timing == "start") {
+            cnt.inc("skipped_single_timing_reading");
+            return (findings, cnt, observations);
+        }
         cnt.inc("cases");
         match rec0.status.as_str() {
             "ok" => cnt.inc("covered"),
